@@ -22,7 +22,7 @@ Record tx := mkTx { t_acct : N; t_nonce : N; t_id : N; t_ts : N }.
 Definition tx_eqb (x y : tx) : bool :=
   (t_acct x =? t_acct y) && (t_nonce x =? t_nonce y) && (t_id x =? t_id y) && (t_ts x =? t_ts y).
 
-Definition slot := (N * N)%type.                       (* (account, nonce) *)
+Notation slot := (N * N)%type (only parsing).           (* (account, nonce) *)
 Definition slot_eqb (x y : slot) : bool := (fst x =? fst y) && (snd x =? snd y).
 Definition slot_of (t : tx) : slot := (t_acct t, t_nonce t).
 
@@ -30,7 +30,7 @@ Definition slot_of (t : tx) : slot := (t_acct t, t_nonce t).
 Definition NILV : N := 18446744073709551615.
 Definition nil_tx : tx := mkTx NILV NILV NILV NILV.
 
-Definition pkey := (N * slot)%type.                    (* (timestamp, (account, nonce)) *)
+Notation pkey := (N * (N * N))%type (only parsing).     (* (timestamp, (account, nonce)) *)
 Definition pkey_eqb (x y : pkey) : bool := (fst x =? fst y) && slot_eqb (snd x) (snd y).
 (** orderedTimeoutKey.Less: timestamp, then account, then nonce *)
 Definition pkey_ltb (x y : pkey) : bool :=
